@@ -185,6 +185,9 @@ func (c *channel) sendMsg(req request) (err error) {
 
 	c.streamMut.RLock()
 	defer c.streamMut.RUnlock()
+	// the goroutine below must not read c.cancelStream itself:
+	// it does not hold streamMut, and reconnect replaces the field.
+	cancelStream := c.cancelStream
 
 	done := make(chan struct{})
 
@@ -204,7 +207,7 @@ func (c *channel) sendMsg(req request) (err error) {
 				// false alarm
 			default:
 				// trigger reconnect
-				c.cancelStream()
+				cancelStream()
 			}
 		}
 	}()
